@@ -82,7 +82,7 @@ class SymArray:
             raise Unsupported(f"index arity {len(idx)} for {self.ndim}-d array")
         rd = sym.ctx().ghost.get("reads")
         if rd is not None:
-            rd.append(id(self))
+            rd.append(self.__dict__.get("_owner_id") or id(self))      # a snapshot's reads count as reads of the array it was taken from
         key = tuple(i.e.get_id() for i in idx)
         if key not in self._memo:
             self._memo[key] = self._fn(*idx)
@@ -91,8 +91,24 @@ class SymArray:
     def __len__(self):
         raise TypeError("len() of a symbolic array: the len model must be bound (T4)")
 
+    def _frozen(self):
+        """immutable snapshot of the CURRENT contents: results of arithmetic / fancy indexing are copies in numpy, so they must not
+        see later in-place updates of their operands (basic slices are views and keep reading the live object)"""
+        sn = self.__dict__.get("_snap")
+        if sn is None:
+            sn = SymArray(self.shape, self._fn, self.guard, self.kind)
+            sn._memo = self._memo
+            sn.__dict__["_owner_id"] = self.__dict__.get("_owner_id") or id(self)
+            sn.__dict__["_snap"] = sn
+            self.__dict__["_snap"] = sn
+        return sn
+
+    def _touch(self):
+        self.__dict__["_snap"] = None
+
     def map(self, f, kind=None):
-        return SymArray(self.shape, lambda *i: f(self.at(*i)), self.guard, kind)
+        s_ = self._frozen()
+        return SymArray(self.shape, lambda *i: f(s_.at(*i)), self.guard, kind)
 
     def opaque(self, name):
         """T6 cut at array level: a fresh input array; its definition is revealed per index on demand"""
@@ -111,7 +127,10 @@ class SymArray:
     def _ew(self, o, f):
         if isinstance(o, Cat):
             return NotImplemented
+        self_live = self
+        self = self._frozen()
         if isinstance(o, SymArray):
+            o = o._frozen()
             if self.ndim == o.ndim == 2 and o.shape[1].concrete() == 1 and self.shape[1].concrete() != 1:
                 return SymArray(self.shape, lambda i, k: f(self.at(i, k), o.at(i, SI(0))), self.guard)      # (n,m) op (n,1)
             if self.ndim == o.ndim:
@@ -135,8 +154,8 @@ class SymArray:
     def __rmul__(self, o): return self._ew(o, lambda a, b: b * a)
     def __truediv__(self, o): return self._ew(o, lambda a, b: a / b)
     def __rtruediv__(self, o): return self._ew(o, lambda a, b: b / a)
-    def __pow__(self, n): return SymArray(self.shape, lambda *i: self.at(*i) ** n, self.guard)
-    def __neg__(self): return SymArray(self.shape, lambda *i: -self.at(*i), self.guard)
+    def __pow__(self, n): return self.map(lambda v: v ** n)
+    def __neg__(self): return self.map(lambda v: -v)
 
     def _inplace(self, o, f):
         """numpy in-place operators mutate the array object (every alias sees the change): logged as a whole-array write"""
@@ -147,6 +166,7 @@ class SymArray:
         snap_self = old
         res = snap_self._ew(o, f)
         self._fn, self._memo = res._fn, {}
+        self._touch()
         from .autoloops import Region
         sym.ctx().ghost.setdefault("writes", []).append((self, Region(None, self.ndim, {}, {}, SR(0), [])))
         return self
@@ -159,13 +179,13 @@ class SymArray:
     def __le__(self, o): return self._ew(o, lambda a, b: a <= b)
     def __gt__(self, o): return self._ew(o, lambda a, b: a > b)
     def __ge__(self, o): return self._ew(o, lambda a, b: a >= b)
-    def __invert__(self): return SymArray(self.shape, lambda *i: ~self.at(*i), self.guard)
+    def __invert__(self): return self.map(lambda v: ~v)
     def __and__(self, o): return self._ew(o, lambda a, b: a & b)
     def __or__(self, o): return self._ew(o, lambda a, b: a | b)
-    def conjugate(self): return SymArray(self.shape, lambda *i: self.at(*i).conjugate(), self.guard)
+    def conjugate(self): return self.map(lambda v: v.conjugate())
     conj = conjugate
-    real = property(lambda s: SymArray(s.shape, lambda *i: s.at(*i).real, s.guard))
-    imag = property(lambda s: SymArray(s.shape, lambda *i: s.at(*i).imag, s.guard))
+    real = property(lambda s: s.map(lambda v: v.real))
+    imag = property(lambda s: s.map(lambda v: v.imag))
 
     def __eq__(self, o):
         return self._ew(o, lambda a, b: SB(eq(a, b)))
@@ -236,8 +256,10 @@ class SymArray:
                 return SymArray(self.shape, self._fn_at(), _and_guard(self.guard, lambda k: key.at(k).e), self.kind)
             # gather along axis 0 (obligation: indices in range)
             if self.ndim == 1:
-                return SymArray(key.shape, lambda *i: self.at(key.at(*i)), key.guard, self.kind)
-            return SymArray(key.shape + self.shape[1:], lambda *i: self.at(key.at(*i[:key.ndim]), *i[key.ndim:]), key.guard, self.kind)
+                fz, kz = self._frozen(), key._frozen()
+                return SymArray(key.shape, lambda *i: fz.at(kz.at(*i)), key.guard, self.kind)
+            fz, kz = self._frozen(), key._frozen()
+            return SymArray(key.shape + self.shape[1:], lambda *i: fz.at(kz.at(*i[:key.ndim]), *i[key.ndim:]), key.guard, self.kind)
         if isinstance(key, slice):
             if self.ndim < 1 or key.step is not None:
                 raise Unsupported("slice")
@@ -281,6 +303,7 @@ class SymArray:
             _idx_ob(b, self.shape[1])
             v = val
             if isinstance(v, SymArray):
+                v = v._frozen()
                 if v.ndim == 1:
                     self._fn = lambda i, k: ite(k.e == b.e, v.at(i), old.at(i, k))
                 else:
@@ -310,6 +333,7 @@ class SymArray:
         else:
             raise Unsupported(f"store {key!r}")
         self._memo = {}
+        self._touch()
 
     # ---- reductions (ghost functions with instantiated axioms)
     def max(self):
